@@ -560,7 +560,7 @@ def _run_log(tier, seed):
                 merged += len(b["cells"]) - len(a["cells"]) < len(at)
             unsorted += at != sorted(at)
             renumbered += bool(a["cells"]) and b["cells"][:len(a["cells"])] != a["cells"]
-        if not (merged and unsorted and renumbered):
+        if not (merged and renumbered and (unsorted or "DeepText" in cfg)):     # DeepText: one depth per call
             raise MachineryError(f"DrillholeLog/{cfg}: vacuous graph (merges {merged}, unsorted arguments {unsorted}, "
                                  f"cell renumberings {renumbered})")
         cov["per_config"][cfg] = {"states": res.distinct, "transitions": len(g.edges), "paths": len(paths),
